@@ -114,7 +114,7 @@ func newSyncWorld(thorough bool) *syncWorld {
 	sw.jwsSeeds()
 	sw.bbsSeeds(thorough)
 	sw.didKeySeeds()
-	sw.sdjwtSeeds()
+	sw.sdjwtSeeds(thorough)
 	sw.docSeeds()
 	sw.msgMapSeeds()
 
@@ -580,7 +580,7 @@ func (s *syncWorld) didKeySeeds() {
 
 // ---------- E7: SD-JWT ----------
 
-func (s *syncWorld) sdjwtSeeds() {
+func (s *syncWorld) sdjwtSeeds(thorough bool) {
 	pub, priv, err := ed25519.GenerateKey(detRand("c03-sdjwt"))
 	must(err)
 
@@ -593,6 +593,8 @@ func (s *syncWorld) sdjwtSeeds() {
 
 	hjwk, err := jwksupport.JWKFromKey(hpub)
 	must(err)
+
+	s.sdGraphSeeds(signer, ver, thorough)
 
 	claims := map[string]interface{}{"given_name": "Albert", "age": 42, "address": map[string]interface{}{
 		"street": "Main", "country": "DE"}, "nationalities": []interface{}{"US", "DE"}}
@@ -614,8 +616,8 @@ func (s *syncWorld) sdjwtSeeds() {
 			must(e)
 
 			hp := func(in []byte) error {
-				_, e2 := holder.Parse(string(in), holder.WithSignatureVerifier(ver))
-				return e2
+				cl, e2 := holder.Parse(string(in), holder.WithSignatureVerifier(ver))
+				return proportion(in, cl, e2)
 			}
 
 			must(hp([]byte(cfi)))
@@ -640,14 +642,14 @@ func (s *syncWorld) sdjwtSeeds() {
 			must(e)
 
 			vp := func(in []byte) error {
-				_, e2 := sdverifier.Parse(string(in), sdverifier.WithSignatureVerifier(ver),
+				cl, e2 := sdverifier.Parse(string(in), sdverifier.WithSignatureVerifier(ver),
 					sdverifier.WithHolderVerificationRequired(true), sdverifier.WithExpectedNonceForHolderVerification("n"),
 					sdverifier.WithExpectedAudienceForHolderVerification("a"))
-				return e2
+				return proportion(in, cl, e2)
 			}
 			vpLoose := func(in []byte) error {
-				_, e2 := sdverifier.Parse(string(in), sdverifier.WithSignatureVerifier(ver))
-				return e2
+				cl, e2 := sdverifier.Parse(string(in), sdverifier.WithSignatureVerifier(ver))
+				return proportion(in, cl, e2)
 			}
 
 			must(vp([]byte(pres)))
@@ -834,13 +836,13 @@ func (s *syncWorld) docSeeds() {
 	must(err)
 
 	parseVC := func(in []byte) error {
-		_, e := verifiable.ParseCredential(in, verifiable.WithJSONLDDocumentLoader(loader),
+		c, e := verifiable.ParseCredential(in, verifiable.WithJSONLDDocumentLoader(loader),
 			verifiable.WithEmbeddedSignatureSuites(sigSuite), verifiable.WithPublicKeyFetcher(fetcher))
-		return e
+		return proportion(in, c, e)
 	}
 	parseVCNoProof := func(in []byte) error {
-		_, e := verifiable.ParseCredential(in, verifiable.WithJSONLDDocumentLoader(loader), verifiable.WithDisabledProofCheck())
-		return e
+		c, e := verifiable.ParseCredential(in, verifiable.WithJSONLDDocumentLoader(loader), verifiable.WithDisabledProofCheck())
+		return proportion(in, c, e)
 	}
 	parseVCStrict := func(in []byte) error {
 		_, e := verifiable.ParseCredential(in, verifiable.WithJSONLDDocumentLoader(loader), verifiable.WithStrictValidation(),
